@@ -7,6 +7,11 @@
 //!   VERIF_OUT       path of the result JSON
 
 mod clients;
+mod gen;
+mod oracle;
+mod rbac;
+mod scenarios;
+mod world;
 mod crypto;
 mod hosts;
 mod http;
@@ -58,7 +63,18 @@ fn main() {
     let result = rt.block_on(async {
         vrt::time::start();
         let r = match scenario.as_str() {
-            _ => smoke::run(seed).await,
+            "smoke" => smoke::run(seed).await,
+            _ => {
+                let tier = std::env::var("VERIF_TIER").unwrap_or_else(|_| "quick".to_string());
+                let plan = match std::env::var("VERIF_PLAN") {
+                    Ok(p) => serde_json::from_slice(&std::fs::read(&p).expect("read plan")).expect("plan json"),
+                    Err(_) => scenarios::generate(&scenario, seed, &tier),
+                };
+                if std::env::var("VERIF_PRINT_PLAN").is_ok() {
+                    return plan;
+                }
+                scenarios::run(&scenario, seed, plan).await
+            }
         };
         vrt::time::stop();
         r
